@@ -3,21 +3,31 @@
   entry in `handlers`.
 -/
 import GitAiModel.Driver.NoteFormat
+import GitAiModel.Driver.NotesTree
 import GitAiModel.Driver.DiffSplit
 import GitAiModel.Driver.Stats
 import GitAiModel.Driver.Tracker
 import GitAiModel.Driver.Cli
 import GitAiModel.Driver.Sync
+import GitAiModel.Driver.BlameOverlay
+import GitAiModel.Driver.Remap
+import GitAiModel.Driver.Redact
+import GitAiModel.Driver.Routing
 namespace GitAi.Driver
 open Lean
 
 def handlers : List (String → Json → Option (Except String Json)) := [
   NoteFormatD.handle,
+  NotesTreeD.handle,
   DiffSplitD.handle,
   StatsD.handle,
   TrackerD.handle,
   CliD.handle,
-  SyncD.handle
+  SyncD.handle,
+  BlameOverlayD.handle,
+  RemapD.handle,
+  RedactD.handle,
+  RoutingD.handle
 ]
 
 end GitAi.Driver
